@@ -346,7 +346,8 @@ where
         let (props, property_length) = Properties::parse(&data[cursor..])?;
         cursor += property_length;
         validate_subscribe_properties(&props)?;
-        let prop_len = VariableByteInteger::from_u32(props.size() as u32).unwrap();
+        let prop_len =
+            VariableByteInteger::from_len(props.size()).map_err(|_| MqttError::MalformedPacket)?;
 
         let mut entries = Vec::new();
         while cursor < data.len() {
@@ -366,7 +367,8 @@ where
 
         let remaining_size =
             buffer_size + property_length + entries.iter().map(|e| e.size()).sum::<usize>();
-        let remaining_length = VariableByteInteger::from_u32(remaining_size as u32).unwrap();
+        let remaining_length = VariableByteInteger::from_len(remaining_size)
+            .map_err(|_| MqttError::MalformedPacket)?;
 
         let subscribe = GenericSubscribe {
             fixed_header: [FixedHeader::Subscribe as u8],
